@@ -221,3 +221,174 @@ Proof.
     cbn [step]. eexists _, i. split; [reflexivity | split; [exact HS | lia]].
 Qed.
 End Noise.
+
+(* ================= runs with noise ================= *)
+Record slot := { s_pre : list op; s_ev : fev; s_mid : list op }.
+
+Definition sched_ops (lam : fev -> N) (vals : list (N * N)) (sc : list slot) (tl : list op) : list op :=
+  flat_map (fun s => s_pre s ++ OpB (to_aevent lam vals (s_ev s)) :: s_mid s ++ [OpP (to_aevent lam vals (s_ev s))]) sc ++ tl.
+(* true = the Build / Process of a valid event *)
+Definition sched_mask (sc : list slot) (tl : list op) : list bool :=
+  flat_map (fun s => repeat false (length (s_pre s)) ++ true :: repeat false (length (s_mid s)) ++ [true]) sc ++ repeat false (length tl).
+Definition pick (mask : list bool) (os : list AbftRun.obs) : list AbftRun.obs := map snd (filter fst (combine mask os)).
+Definition count_builds (ops : list op) : nat := length (filter is_build ops).
+
+Lemma pick_false n : forall os m os', length os = n -> pick (repeat false n ++ m) (os ++ os') = pick m os'.
+Proof.
+  induction n as [|n IH]; intros [|o os] m os' L; cbn [length] in L; try discriminate; [reflexivity|].
+  cbn [repeat app]. unfold pick in *. cbn [combine filter fst]. apply IH. lia.
+Qed.
+Lemma pick_true m o os : pick (true :: m) (o :: os) = o :: pick m os.
+Proof. reflexivity. Qed.
+Lemma pick_all_false n os : pick (repeat false n) os = [].
+Proof. revert os. induction n as [|n IH]; intros [|o os]; cbn [repeat]; try reflexivity. unfold pick in *. cbn [combine filter fst]. apply IH. Qed.
+Lemma count_builds_app a b : count_builds (a ++ b) = (count_builds a + count_builds b)%nat.
+Proof. unfold count_builds. rewrite filter_app, app_length. reflexivity. Qed.
+
+Section NoiseRun.
+Variable cap : nat.
+Variable lam : fev -> N.
+Variable vals : list (N * N).
+Hypothesis Hvals : vals_ok vals.
+Variable J : N -> Prop.
+Variable K : N.
+Hypothesis HJ : forall a, J a -> id_fresh K a.
+Hypothesis HK : K < 2 ^ 192.
+
+Notation nv := (length vals).
+Notation Sim := (Sim lam vals J K).
+Notation ae := (to_aevent lam vals).
+
+(* every operation outside the mask is acceptable noise in the state in which it is executed *)
+Fixpoint ok_from (i : inst) (ops : list op) (mask : list bool) : Prop :=
+  match ops, mask with
+  | o :: t, m :: mt => (m = false -> noise_ok cap J i o) /\ ok_from (snd (fst (step cap [] sample i o))) t mt
+  | _, _ => True
+  end.
+
+Lemma noise_list T Dr B : few_forkers vals T -> forall ns i rest mrest, Sim i T Dr B ->
+  ok_from i (ns ++ rest) (repeat false (length ns) ++ mrest) ->
+  l_ctr (i_st i) + N.of_nat (count_builds ns) <= K ->
+  exists i' os, run cap [] sample i (ns ++ rest) = os ++ run cap [] sample i' rest /\ length os = length ns /\
+    Sim i' T Dr B /\ ok_from i' rest mrest /\ l_ctr (i_st i') <= l_ctr (i_st i) + N.of_nat (count_builds ns).
+Proof.
+  intros Hff. induction ns as [|o ns IH]; intros i rest mrest HS OK HB.
+  - exists i, []. cbn [app length repeat] in *. split; [reflexivity|]. split; [reflexivity|]. split; [exact HS|]. split; [exact OK|].
+    unfold count_builds. cbn [filter length]. lia.
+  - cbn [app length repeat ok_from] in OK. destruct OK as [OK1 OK2].
+    assert (HBo : is_build o = true -> l_ctr (i_st i) + 1 <= K).
+    { intros Eb. unfold count_builds in HB. cbn [filter] in HB. rewrite Eb in HB. cbn [length] in HB. lia. }
+    destruct (noise_step cap lam vals Hvals J K HJ HK i T Dr B o HS Hff (OK1 eq_refl) HBo) as [ob [i1 [E [HS1 C1]]]].
+    rewrite E in OK2. cbn [fst snd] in OK2.
+    assert (HB1 : l_ctr (i_st i1) + N.of_nat (count_builds ns) <= K).
+    { unfold count_builds in HB |- *. cbn [filter] in HB. destruct (is_build o); cbn [length] in HB; lia. }
+    destruct (IH i1 rest mrest HS1 OK2 HB1) as [i' [os [ER [L [HS' [OK' C']]]]]].
+    exists i', (ob :: os). cbn [app run]. rewrite E, ER. split; [reflexivity|]. split; [cbn [length]; lia|].
+    split; [exact HS'|]. split; [exact OK'|].
+    unfold count_builds in *. cbn [filter]. destruct (is_build o); cbn [length]; lia.
+Qed.
+
+Lemma sched_sim : forall sc i T Dr B tl, Sim i T Dr B ->
+  codes_ok (snd (add_events vals T (map s_ev sc))) ->
+  (forall e, In e (map s_ev sc) -> id_fresh K (eid (fe e)) /\ ~ J (eid (fe e))) ->
+  few_forkers vals (fst (add_events vals T (map s_ev sc))) ->
+  l_ctr (i_st i) + N.of_nat (count_builds (sched_ops lam vals sc tl)) <= K ->
+  ok_from i (sched_ops lam vals sc tl) (sched_mask sc tl) ->
+  exists i' B', render (pick (sched_mask sc tl) (run cap [] sample i (sched_ops lam vals sc tl))) = (snd (add_events vals T (map s_ev sc)), B') /\
+    Sim i' (fst (add_events vals T (map s_ev sc))) (rev (map s_ev sc) ++ Dr) (B ++ B').
+Proof.
+  induction sc as [|s sc IH]; intros i T Dr B tl HS Hc Hf Hff HB OK.
+  - cbn [map add_events fst snd rev app]. unfold sched_ops, sched_mask in *. cbn [flat_map app] in *. cbn [map add_events fst] in Hff.
+    pose proof (noise_list T Dr B Hff tl i [] [] HS) as NL. rewrite !app_nil_r in NL.
+    destruct (NL OK HB) as [i' [os [ER [L [HS' _]]]]].
+    rewrite ER. cbn [run]. rewrite app_nil_r, pick_all_false. exists i', []. rewrite app_nil_r. split; [reflexivity | exact HS'].
+  - set (e := s_ev s). cbn [map add_events] in *. fold e in Hc, Hf, Hff |- *.
+    destruct (add_event vals T e) as [T1 r] eqn:AE.
+    pose proof (add_events_incl vals (map s_ev sc) T1) as Inc.
+    destruct (add_events vals T1 (map s_ev sc)) as [T2 rs] eqn:AEs. cbn [fst snd] in *.
+    assert (Hr : fst r = 0) by (apply Hc; left; reflexivity).
+    destruct r as [c h]. cbn [fst] in Hr. subst c.
+    pose proof (add_event_high vals T e T1 h AE) as Hh.
+    destruct (add_event_accept vals T e T1 h AE) as (-> & PK & NL & CR & EW & FO).
+    assert (HffT : few_forkers vals T).
+    { eapply few_forkers_sub; [|exact Hff]. intros x Hx. apply Inc. right. exact Hx. }
+    assert (Hff1 : few_forkers vals (mk_node nv T e :: T)) by (eapply few_forkers_sub; [exact Inc | exact Hff]).
+    (* shape of the operation list *)
+    set (rest := sched_ops lam vals sc tl). set (mrest := sched_mask sc tl).
+    assert (Eops : sched_ops lam vals (s :: sc) tl = s_pre s ++ (OpB (ae e) :: s_mid s ++ (OpP (ae e) :: rest))).
+    { unfold sched_ops, rest. cbn [flat_map]. fold e. rewrite <- !app_assoc. cbn [app]. rewrite <- app_assoc. reflexivity. }
+    assert (Emask : sched_mask (s :: sc) tl = repeat false (length (s_pre s)) ++ (true :: repeat false (length (s_mid s)) ++ (true :: mrest))).
+    { unfold sched_mask, mrest. cbn [flat_map]. rewrite <- !app_assoc. cbn [app]. rewrite <- app_assoc. reflexivity. }
+    rewrite Eops, Emask in *.
+    assert (CB : count_builds (s_pre s ++ OpB (ae e) :: s_mid s ++ OpP (ae e) :: rest)
+                 = (count_builds (s_pre s) + (1 + (count_builds (s_mid s) + count_builds rest)))%nat).
+    { rewrite count_builds_app. f_equal.
+      change (OpB (ae e) :: s_mid s ++ OpP (ae e) :: rest) with ([OpB (ae e)] ++ s_mid s ++ [OpP (ae e)] ++ rest).
+      rewrite !count_builds_app. reflexivity. }
+    rewrite CB in HB.
+    (* noise before the Build *)
+    destruct (noise_list T Dr B HffT (s_pre s) i _ _ HS OK ltac:(lia)) as [i0 [os0 [ER0 [L0 [HS0 [OK0 C0]]]]]].
+    (* the Build *)
+    cbn [ok_from] in OK0. destruct OK0 as [_ OK0].
+    destruct (build_step cap lam vals Hvals J K HJ i0 T Dr B e HS0 PK CR EW NL FO ltac:(lia) ltac:(lia)) as [i1 [EB [HS1 Ct1]]].
+    rewrite EB in OK0. cbn [fst snd] in OK0.
+    (* noise between the Build and the Process *)
+    destruct (noise_list T Dr B HffT (s_mid s) i1 _ _ HS1 OK0 ltac:(lia)) as [i2 [os2 [ER2 [L2 [HS2 [OK2 C2]]]]]].
+    (* the Process *)
+    cbn [ok_from] in OK2. destruct OK2 as [_ OK2].
+    destruct (process_step cap lam vals Hvals J K i2 T Dr B e HS2 (proj1 (Hf e (or_introl eq_refl))) (proj2 (Hf e (or_introl eq_refl))) PK NL CR EW FO Hff1)
+      as [bl [i3 [EP [HS3 Ct3]]]].
+    rewrite EP in OK2. cbn [fst snd] in OK2.
+    destruct (IH i3 (mk_node nv T e :: T) (e :: Dr) (B ++ map blk_obs bl) tl HS3) as [i' [B' [ER HS']]].
+    { rewrite AEs. cbn [snd]. intros r0 Hr0. apply Hc. right. exact Hr0. }
+    { intros e0 He0. apply Hf. right. exact He0. }
+    { rewrite AEs. exact Hff. }
+    { fold rest. lia. }
+    { exact OK2. }
+    rewrite AEs in ER, HS'. cbn [fst snd] in ER, HS'. fold rest mrest in ER.
+    exists i', (map blk_obs bl ++ B'). split.
+    + rewrite ER0. cbn [run]. rewrite EB. rewrite ER2. cbn [run]. rewrite EP.
+      rewrite (pick_false _ os0 _ _ L0), pick_true, (pick_false _ os2 _ _ L2), pick_true.
+      cbn [render]. rewrite ER, Hh. reflexivity.
+    + cbn [rev]. rewrite <- !app_assoc. cbn [app]. rewrite <- app_assoc in HS'. exact HS'.
+Qed.
+End NoiseRun.
+
+(* ================= the theorem ================= *)
+Definition noise_side (D : list fev) (J : N -> Prop) (K : N) (ops : list op) : Prop :=
+  (forall e, In e D -> id_fresh K (eid (fe e)) /\ ~ J (eid (fe e))) /\ (forall a, J a -> id_fresh K a) /\
+  N.of_nat (count_builds ops) <= K /\ K < 2 ^ 192.
+
+Lemma final_blocks (cap : nat) lam vals J K (Hvals : vals_ok vals) i T Dr B : Sim lam vals J K i T Dr B -> few_forkers vals T ->
+  B = map (fun b : N * N => (fst b, snd b, ElectionSpec.cheaters_of vals T (snd b))) (r_blocks vals T).
+Proof.
+  intros [W Dn _ _ _ SG CH] Hff. rewrite (cheat_map vals T B CH). f_equal.
+  unfold r_blocks, blocks_spec. symmetry.
+  destruct (seg_bound vals T 0 (map fst B) _ SG) as [EL BD].
+  apply (blocks_of_seg cap vals T (map fst B) 0 _ _ SG).
+  - apply (Done_undecided lam vals Hvals T Dr _ _ Hff W _ Dn).
+  - destruct BD as [->|BD]; [cbn; lia | lia].
+Qed.
+
+Theorem link_noise (cap : nat) lam vals (sc : list slot) (tl : list op) J K :
+  let D := map s_ev sc in let ops := sched_ops lam vals sc tl in let mask := sched_mask sc tl in
+  vals_ok vals -> noise_side D J K ops -> valid_run vals D ->
+  ok_from cap J (start 1 vals) ops mask ->
+  render (pick mask (run cap [] sample (start 1 vals) ops)) = reference vals D.
+Proof.
+  intros D ops mask Hvals (Hf & HJ & HB & HK) [Hacc Hff] OK.
+  destruct sc as [|s0 sc0].
+  - unfold mask, sched_mask. cbn [flat_map app]. rewrite pick_all_false. reflexivity.
+  - assert (Hnv : (0 < length vals)%nat).
+    { unfold all_accepted, D in Hacc. cbn [map add_events] in Hacc.
+      destruct (add_event vals [] (s_ev s0)) as [T1 r] eqn:AE. destruct (add_events vals T1 (map s_ev sc0)) as [T2 rs].
+      cbn [snd] in Hacc. assert (Hr : fst r = 0) by (apply Hacc; left; reflexivity). destruct r as [c h]. cbn in Hr. subst c.
+      destruct (add_event_accept vals [] (s_ev s0) T1 h AE) as (_ & _ & _ & CR & _). lia. }
+    destruct (sched_sim cap lam vals Hvals J K HJ HK (s0 :: sc0) (start 1 vals) [] [] [] tl
+                (Sim_start lam vals Hvals J K HJ Hnv) Hacc Hf Hff) as [i' [B' [ER HS]]].
+    { cbn [start i_st genesis l_ctr]. fold ops. lia. }
+    { exact OK. }
+    fold D ops mask in ER, HS. rewrite ER. unfold reference. unfold table in Hff.
+    destruct (add_events vals [] D) as [T rs] eqn:AEs. cbn [fst snd] in *. f_equal.
+    cbn [app] in HS. apply (final_blocks cap lam vals J K Hvals i' T _ B' HS Hff).
+Qed.
